@@ -576,6 +576,72 @@ void* xs_realloc(void* old, size_t n) {
   alloc_record(p, n, "realloc", s0, s1);
   return p;
 }
+// the rest of the allocator family: same gate, same accounting (no pool: alignment / libc-internal growth)
+void* xs_reallocarray(void* old, size_t a, size_t b) {
+  if (alloc_gate(a * b, "reallocarray")) return nullptr;
+  if (b && a > (size_t)-1 / b) { errno = ENOMEM; return nullptr; }
+  uintptr_t s0 = RA0, s1 = ra1();
+  size_t n = a * b;
+  if (g_reuse_mode && old && g_live.count((uintptr_t)old)) {
+    size_t osz = g_live[(uintptr_t)old].size;
+    if (n == 0) { alloc_forget(old, "reallocarray"); pool_free(old, osz, true); return nullptr; }
+    void* p = pool_alloc(n, false);
+    if (p) memcpy(p, old, osz < n ? osz : n);
+    alloc_forget(old, "reallocarray");
+    pool_free(old, osz, true);
+    alloc_record(p, n, "reallocarray", s0, s1);
+    return p;
+  }
+  if (old) alloc_forget(old, "reallocarray");
+  void* p = realloc(old, n);
+  if (n == 0 && !p) return p;
+  alloc_record(p, n, "reallocarray", s0, s1);
+  return p;
+}
+void* xs_aligned_alloc(size_t al, size_t n) {
+  if (alloc_gate(n, "aligned_alloc")) return nullptr;
+  void* p = aligned_alloc(al, n);
+  alloc_record(p, n, "aligned_alloc", RA0, ra1());
+  return p;
+}
+void* xs_memalign(size_t al, size_t n) {
+  if (alloc_gate(n, "memalign")) return nullptr;
+  void* p = aligned_alloc(al, (n + al - 1) / al * al);
+  alloc_record(p, n, "memalign", RA0, ra1());
+  return p;
+}
+void* xs_valloc(size_t n) {
+  if (alloc_gate(n, "valloc")) return nullptr;
+  void* p = nullptr;
+  if (posix_memalign(&p, 4096, n)) p = nullptr;
+  alloc_record(p, n, "valloc", RA0, ra1());
+  return p;
+}
+int xs_posix_memalign(void** out, size_t al, size_t n) {
+  if (alloc_gate(n, "posix_memalign")) return ENOMEM;
+  int r = posix_memalign(out, al, n);
+  if (r == 0) alloc_record(*out, n, "posix_memalign", RA0, ra1());
+  return r;
+}
+ssize_t xs_getdelim(char** line, size_t* cap, int delim, FILE* fp) {
+  SH->seam_calls++;
+  char* old = line ? *line : nullptr;
+  bool pooled = old && g_reuse_mode && g_live.count((uintptr_t)old);
+  if (pooled) {
+    // libc must not realloc a pool block: hand it an ordinary block with the same contents first
+    size_t osz = g_live[(uintptr_t)old].size;
+    char* q = (char*)malloc(osz ? osz : 1);
+    if (q) { memcpy(q, old, osz); alloc_forget(old, "getline(buffer)"); pool_free(old, osz, true); alloc_record(q, osz, "getline(buffer)", RA0, ra1()); *line = old = q; if (cap && *cap > osz) *cap = osz; }
+  }
+  if ((!old || (cap && *cap == 0)) && alloc_gate(120, "getline")) { errno = ENOMEM; return -1; }
+  ssize_t r = getdelim(line, cap, delim, fp);
+  if (line && *line != old) {
+    if (old) alloc_forget(old, "getline(grow)");
+    if (*line) alloc_record(*line, cap ? *cap : 0, "getline", RA0, ra1());
+  }
+  return r;
+}
+ssize_t xs_getline(char** line, size_t* cap, FILE* fp) { return xs_getdelim(line, cap, '\n', fp); }
 void xs_free(void* p) {
   SH->seam_calls++;
   if (p) sched_visible("free");
@@ -939,6 +1005,16 @@ void coverage_by_function(std::map<std::string, std::pair<int, int>>& out) {
   }
 }
 }  // namespace xs
+
+// other names under which libc exports the same entry points (build.py SEAM_ALIASES): alias symbols, no wrapper frame
+#define XS_ALIAS(name, base) extern "C" __typeof__(xs_##base) xs_##name __attribute__((alias("xs_" #base)));
+XS_ALIAS(fopen64, fopen)
+XS_ALIAS(freopen64, freopen)
+XS_ALIAS(__isoc23_sscanf, sscanf)
+XS_ALIAS(__isoc23_fscanf, fscanf)
+XS_ALIAS(__isoc23_strtol, strtol)
+XS_ALIAS(__isoc23_strtoul, strtoul)
+XS_ALIAS(__getdelim, getdelim)
 
 // ==================================================================== locale configurations
 namespace xs {
